@@ -54,6 +54,13 @@ Theorem C19_mode_independent : S_mode_independent.
 Proof. exact mode_independent. Qed.
 Print Assumptions C19_mode_independent.
 
+(** the faithful model of [iterate]/[run] with all its bookkeeping and mode switches, on
+    either store, with or without transpose: the counters after every iteration are those
+    of the synchronous iteration (hence, by C19_ball, the join over the ball) *)
+Theorem C19_concrete : S_concrete_full.
+Proof. exact concrete_full. Qed.
+Print Assumptions C19_concrete.
+
 (** the per-node writes of an iteration commute: any order of the blocks gives the same array *)
 Theorem C19_schedule : S_schedule.
 Proof. exact schedule. Qed.
